@@ -1332,7 +1332,7 @@ Section NdMain.
     assert (Hno : forallb not_none nix = true).
     { apply norm_all_not_none; auto; [eapply no_new_expand; eauto|eapply expand_nzs; eauto]. }
     rewrite (np_index_basic sh ix nix Hr Hna) in *.
-    apply (nd_core kf c ca ix nix Hc Hok Hca Hsorted Hnd Hn Hwf Hno); [rewrite (no_arr_n_arr nix Hna); lia|].
+    apply (nd_core kf c ca ix nix Hc Hok Hca Hsorted Hnd Hn Hwf Hno); [rewrite (no_arr_n_arr nix Hna); apply Nat.le_0_l|].
     destruct (getitem kf c ix) as [[v|y]|e]; exact HC.
   Qed.
 
@@ -1363,7 +1363,7 @@ Section NdMain.
     assert (Enp : np_index sh ix = Ok (out_shape (map to_r nix), src_of (map to_r nix))).
     { rewrite np_index_eq, Hr. cbn [bind]. rewrite Enix, (broadcast_one pre l post Hpre Hpost). reflexivity. }
     rewrite Enp in *.
-    apply (nd_core kf c ca ix nix Hc Hok Hca Hsorted Hnd Hn Hwf Hno); [lia|].
+    apply (nd_core kf c ca ix nix Hc Hok Hca Hsorted Hnd Hn Hwf Hno); [rewrite Hn1; apply le_n|].
     destruct (getitem kf c ix) as [[v|y]|e]; exact HC.
   Qed.
 
@@ -1429,11 +1429,11 @@ Section NdMain.
     assert (HnaK : (n_arr key <= 1)%nat /\ np_index sh ix = Ok (out_shape (map to_r key), src_of (map to_r key))).
     { destruct Hcls as [Hb|[Hone _]].
       - assert (Hna : no_arr key = true) by (apply basic_norm_no_arr; eapply basic_expand; eauto).
-        split; [rewrite (no_arr_n_arr key Hna); lia|apply (np_index_basic sh ix key Hr Hna)].
+        split; [rewrite (no_arr_n_arr key Hna); apply Nat.le_0_l|apply (np_index_basic sh ix key Hr Hna)].
       - assert (Hn1 : n_arr key = 1%nat).
         { pose proof (n_arr_norm ex sh Hf) as H. fold key in H. rewrite (expand_count_arr _ _ _ E) in H.
           unfold one_array in Hone. apply Z.eqb_eq in Hone. clear - H Hone. lia. }
-        split; [lia|]. destruct (one_arr_split key Hn1) as [pre [l [post [Ekey [Hpre Hpost]]]]].
+        split; [rewrite Hn1; apply le_n|]. destruct (one_arr_split key Hn1) as [pre [l [post [Ekey [Hpre Hpost]]]]].
         rewrite np_index_eq, Hr. cbn [bind]. rewrite Ekey, (broadcast_one pre l post Hpre Hpost). reflexivity. }
     destruct HnaK as [HnaK Enp]. rewrite Enp in *.
     destruct (forallb not_none key) eqn:Hnn.
@@ -1455,7 +1455,7 @@ Section NdMain.
         rewrite <- (norm_kcnt ex sh Hf Hshb Hzx) in Hk2. fold key in Hk2. rewrite kcnt_filter in Hk2. exact Hk2. }
       assert (Hint : forallb is_nint nix = false).
       { destruct (forallb is_nint nix) eqn:Ei; [|reflexivity]. exfalso. rewrite forallb_forall in Ei.
-        destruct (filter (fun e => negb (is_nint e)) nix) as [|e0 t] eqn:Efl; [simpl in HK2; lia|].
+        destruct (filter (fun e => negb (is_nint e)) nix) as [|e0 t] eqn:Efl; [simpl in HK2; clear - HK2; lia|].
         assert (He : In e0 (filter (fun e => negb (is_nint e)) nix)) by (rewrite Efl; left; reflexivity).
         apply filter_In in He. destruct He as [He Hne]. rewrite (Ei e0 He) in Hne. discriminate. }
       assert (HK2' : (2 <= length (K V c nix))%nat) by (erewrite K_len_filter; eassumption).
@@ -1468,7 +1468,7 @@ Section NdMain.
       + exfalso. destruct HC as [HC _].
         assert (Es : out_shape (map to_r key) = shN V c nix key) by (eapply shN_eq; try eassumption; reflexivity).
         assert (Hl : (2 <= length (shN V c nix key))%nat) by (eapply shN_len; try eassumption; reflexivity).
-        rewrite <- Es, HC in Hl. simpl in Hl. lia.
+        rewrite <- Es, HC in Hl. simpl in Hl. clear - Hl. lia.
       + eapply nd_none_case; try eassumption. reflexivity.
       + destruct HC.
   Qed.
@@ -1485,7 +1485,7 @@ Section NdAny.
 
   Theorem gcxs_getitem_any_proof (kf : nat -> nat) (g : gcxs V) ix :
     gcxs_wfb g = true -> (2 <= length (g_shape g))%nat -> StronglySorted Z.lt (g_caxes g) ->
-    no_zero_step ix = true -> basic ix = true -> no_new ix = true ->
+    no_zero_step ix = true -> gcxs_ix_class (g_shape g) ix -> gcxs_none_cond (g_shape g) ix ->
     match np_index (g_shape g) ix with
     | Raise e => gcxs_getitem V veqb add kf g ix = Raise e /\ e = IndexError
     | Ok (sh', gsrc) =>
@@ -1505,8 +1505,8 @@ Section NdAny.
     { rewrite Hcs. destruct Hax as [Hl|Hax]; [lia|exact Hax]. }
     assert (Hden : forall j, gden g j = den c j).
     { intros j. rewrite <- Heq. apply (gcxs_from_coo_den_proof V veqb add c (g_caxes g) j Hc); rewrite Hcs; assumption. }
-    pose proof (gcxs_getitem_nd_proof V veqb add kf c (g_caxes g) ix Hc ltac:(rewrite Hcs; exact Hok) Hca Hsorted
-                  ltac:(rewrite Hcs; exact Hnd) Hz Hb Hnn) as H.
+    pose proof (gcxs_getitem_nd_general_proof V veqb add kf c (g_caxes g) ix Hc ltac:(rewrite Hcs; exact Hok) Hca Hsorted
+                  ltac:(rewrite Hcs; exact Hnd) Hz ltac:(rewrite Hcs; exact Hb) ltac:(rewrite Hcs; exact Hnn)) as H.
     rewrite Heq, Hcs in H.
     destruct (np_index (g_shape g) ix) as [[sh' gsrc]|e]; [|exact H].
     unfold post' in H. destruct (gcxs_getitem V veqb add kf g ix) as [[v|g']|e]; [| |exact H].
@@ -1518,7 +1518,7 @@ Section NdAny.
   (* the two halves under the names of the property list *)
   Theorem gcxs_getitem_den_proof (kf : nat -> nat) (g : gcxs V) ix :
     gcxs_wfb g = true -> (2 <= length (g_shape g))%nat -> StronglySorted Z.lt (g_caxes g) ->
-    no_zero_step ix = true -> basic ix = true -> no_new ix = true ->
+    no_zero_step ix = true -> gcxs_ix_class (g_shape g) ix -> gcxs_none_cond (g_shape g) ix ->
     match np_index (g_shape g) ix with
     | Raise e => gcxs_getitem V veqb add kf g ix = Raise e /\ e = IndexError
     | Ok (sh', gsrc) =>
@@ -1538,7 +1538,7 @@ Section NdAny.
 
   Theorem gcxs_getitem_wf_proof (kf : nat -> nat) (g : gcxs V) ix g' :
     gcxs_wfb g = true -> (2 <= length (g_shape g))%nat -> StronglySorted Z.lt (g_caxes g) ->
-    no_zero_step ix = true -> basic ix = true -> no_new ix = true ->
+    no_zero_step ix = true -> gcxs_ix_class (g_shape g) ix -> gcxs_none_cond (g_shape g) ix ->
     gcxs_getitem V veqb add kf g ix = Ok (GGArr g') -> gcxs_wfb g' = true.
   Proof.
     intros Hwf Hnd Hsorted Hz Hb Hnn Hg.
@@ -1565,3 +1565,94 @@ Proof.
   split; [eexists; split; [vm_compute; reflexivity|repeat split; reflexivity]|].
   reflexivity.
 Qed.
+
+(* None and one index array: the hypotheses of the general theorem are met by non-trivial cases *)
+Example gcxs_getitem_none_array_nonvacuous :
+  let g := gcxs_from_coo nx_c [0; 2] in
+  let full := ISlice None None None in
+  (let ix := [INone; full; full; IInt 0] in
+   gcxs_ix_class (g_shape g) ix /\ gcxs_none_cond (g_shape g) ix
+   /\ exists r, rx_get g ix = Ok (GGArr r) /\ gcxs_wfb r = true /\ g_shape r = [1; 2; 3] /\ gden r [0; 1; 2] = 4)
+  /\
+  (let ix := [full; INone; ISlice (Some 1) None None; INone] in
+   gcxs_ix_class (g_shape g) ix /\ gcxs_none_cond (g_shape g) ix
+   /\ exists r, rx_get g ix = Ok (GGArr r) /\ gcxs_wfb r = true /\ g_shape r = [2; 1; 2; 1; 2] /\ gden r [1; 0; 0; 0; 1] = 9)
+  /\
+  (let ix := [IArr [1; 0; 1]; full; IInt 1] in
+   gcxs_ix_class (g_shape g) ix /\ gcxs_none_cond (g_shape g) ix
+   /\ exists r, rx_get g ix = Ok (GGArr r) /\ gcxs_wfb r = true /\ g_shape r = [3; 3] /\ gden r [2; 1] = 9 /\ gden r [1; 0] = 7)
+  /\
+  (let ix := [INone; IBArr [true; false]; ISlice None None (Some (-1))] in
+   gcxs_ix_class (g_shape g) ix /\ gcxs_none_cond (g_shape g) ix
+   /\ exists r, rx_get g ix = Ok (GGArr r) /\ gcxs_wfb r = true /\ g_shape r = [1; 1; 3; 2] /\ gden r [0; 0; 0; 0] = 5).
+Proof.
+  cbv zeta. repeat split; try (left; reflexivity); try (right; split; reflexivity);
+    try (eexists; split; [vm_compute; reflexivity|repeat split; reflexivity]).
+Qed.
+
+(* ================================================================ ndim = 1: x.tocoo()[key], back through GCXS.from_coo *)
+From Verif Require Import ConvertP.
+
+Lemma out_shape_aux_ok rs : forall seen, shape_ok (out_shape_aux seen rs).
+Proof.
+  unfold shape_ok. induction rs as [|r rs IH]; intros seen; [constructor|].
+  destruct r; cbn [out_shape_aux]; try apply IH; try (constructor; [lia|apply IH]).
+  destruct seen; [apply IH|constructor; [lia|apply IH]].
+Qed.
+
+Lemma np_index_shape_ok sh ix sh' gsrc : np_index sh ix = Ok (sh', gsrc) -> shape_ok sh'.
+Proof.
+  rewrite np_index_eq. destruct (resolve_all sh ix) as [rs|]; [|discriminate]. cbn [bind].
+  destruct (broadcast rs) as [rs'|]; [|discriminate]. cbn [bind]. intros H. inversion H. apply out_shape_aux_ok.
+Qed.
+
+Section Gcxs1d.
+  Variable V : Type.
+  Variable veqb : V -> V -> bool.
+  Variable add : V -> V -> V.
+
+  (* whatever the COO theorems say about x.tocoo()[key] carries over *)
+  Theorem gcxs_getitem_1d_proof (kf : nat -> nat) (g : gcxs V) (d : Z) (ix : index) :
+    gcxs_wfb g = true -> g_shape g = [d] -> g_caxes g = [] -> g_indptr g = [] ->
+    let c := gcxs_tocoo veqb add g in
+    match np_index [d] ix with
+    | Raise e => getitem kf c ix = Raise e
+    | Ok (sh', gsrc) =>
+      match getitem kf c ix with
+      | Ok (GArr y) => c_shape y = sh' /\ c_fill y = c_fill c /\ canonical V y
+                       /\ forall j, in_range sh' j -> den y j = den c (gsrc j)
+      | Ok (GScalar v) => sh' = [] /\ v = den c (gsrc [])
+      | Raise _ => False
+      end
+    end ->
+    match np_index [d] ix with
+    | Raise e => gcxs_getitem V veqb add kf g ix = Raise e
+    | Ok (sh', gsrc) =>
+      match gcxs_getitem V veqb add kf g ix with
+      | Ok (GGArr g') => g_shape g' = sh' /\ g_fill g' = g_fill g /\ gcxs_wfb g' = true
+                         /\ forall j, in_range sh' j -> gden g' j = gden g (gsrc j)
+      | Ok (GGScalar v) => sh' = [] /\ v = gden g (gsrc [])
+      | Raise _ => False
+      end
+    end.
+  Proof.
+    intros Hwf Hsh Hca Hip c HC.
+    assert (Hs : gcxs_strictb V g = true).
+    { unfold gcxs_strictb. rewrite Hwf, Hsh, Hca, Hip. reflexivity. }
+    destruct (tocoo_canonical V veqb add g Hs) as [Hc [Hcs [Hcf Hden]]]. fold c in Hc, Hcs, Hcf, Hden.
+    unfold gcxs_getitem. rewrite Hsh. fold c.
+    destruct (np_index [d] ix) as [[sh' gsrc]|e] eqn:Enp; [|rewrite HC; reflexivity].
+    pose proof (np_index_shape_ok _ _ _ _ Enp) as Hok'.
+    destruct (getitem kf c ix) as [[v|y]|e]; cbn [bind]; [| |exact HC].
+    - destruct HC as [H1 H2]. split; [exact H1|]. rewrite <- Hden. exact H2.
+    - destruct HC as [Hy_sh [Hy_fill [Hy_can Hy_den]]].
+      destruct (resolve_axes (c_shape y) None) as [ca'|] eqn:Era.
+      2: { unfold resolve_axes in Era. destruct (Z.of_nat (length (c_shape y)) <? 2); discriminate. }
+      cbn [bind]. pose proof (resolve_axes_ok _ _ _ Era) as Hax.
+      assert (Hoky : shape_ok (c_shape y)) by (rewrite Hy_sh; exact Hok').
+      split. { unfold gcxs_from_coo. rewrite Hy_sh. destruct sh' as [|a [|b t]]; reflexivity. }
+      split. { rewrite <- Hcf, <- Hy_fill. unfold gcxs_from_coo. destruct (c_shape y) as [|a [|b t]]; reflexivity. }
+      split; [apply (gcxs_from_coo_wf_proof V veqb add y ca' Hy_can Hoky Hax)|].
+      intros j Hj. rewrite (gcxs_from_coo_den_proof V veqb add y ca' j Hy_can Hoky Hax). rewrite <- Hden. apply Hy_den. exact Hj.
+  Qed.
+End Gcxs1d.
